@@ -5,6 +5,9 @@ HERE = os.path.dirname(os.path.abspath(__file__))
 TB = ("Lean 4.33.0 kernel (axioms: propext, Classical.choice, Quot.sound only; audited per theorem); "
       "hand-written Lean model tied to the code by an in-process differential correspondence run (go build -overlay harness) on every run; ")
 CHECKS = {
+ "C16": dict(text="Lean model of splitLines / shortestEditSequence / backtrack / operations / ComputeEdits function by function (V as total function, index bounds separate) and theorems for ALL documents: splitLines_flatten, operations_render (for every good snake chain the emitted operations render `before` into `after`), computeEdits_correct_partial; the remaining obligations (trace invariant => good chain, edits = operations under LSP semantics, totality) are named in the theorem file. Tie: the operation list (field by field, so tie-breaking must match), the edits and the applied result are compared with the real ComputeEdits on 12 000 (quick) / all 131 769 (thorough) pairs over the line alphabet {a,b,empty}<=4 lines with/without final newline plus random realistic pairs; an independent LSP-client applyTextEdits checks 'after' and ordering/bounds.",
+             note=TB + "LSP client semantics as implemented by the harness; proof is partial as stated in Props/C16.lean", ref="5/C16",
+             technique="Lean 4 proof (induction over the snake walk) + exhaustive differential correspondence"),
  "C13": dict(text="Lean theorems rename_no_overwrite, contents_bijection (after any sequence of Put/Rename the provider's files correspond one-to-one to the originals, paths distinct), rename_candidate_injective_iter + handleRename_terminates_fresh (pigeonhole: a free name within |files|+1 candidates), closest_root_is_ancestor (whole components), writeout_untouched / writeout_written (deletes before writes; untouched paths keep their bytes). Tie: real InMemoryFileProvider op sequences, renameCandidate over a name grammar, FindClosestMatchingRoot exhaustively over sibling-prefix roots, DirCleanUpPaths on temp trees, and the real `regal fix --force` binary (both conflict modes, dry-run) with id-tagged files and a one-to-one oracle.",
              note=TB + "renameCandidate counters below MaxInt64; OS file operations; OPA format preserves comments", ref="5/C13",
              technique="Lean 4 proof (state-machine invariant by induction over operations, pigeonhole) + differential correspondence + end-to-end oracle"),
